@@ -82,5 +82,18 @@ class CompressedFileHandler(FileHandler):
 
     def write(self, wfile):
         decompprog = self.decompressors[self.getentry().realencoding]
+        # The child can only write to the client directly if the output file
+        # has a real descriptor (not the in-memory buffer used for WAP text
+        # conversion) and the connection is not wrapped in TLS.
+        try:
+            wfile.fileno()
+            has_descriptor = True
+        except (AttributeError, OSError):
+            has_descriptor = False
+
         with self.vfs.open(self.getselector(), "rb") as fp:
-            subprocess.run([decompprog], stdin=fp, stdout=wfile)
+            if has_descriptor and not self.protocol.check_tls():
+                subprocess.run([decompprog], stdin=fp, stdout=wfile)
+            else:
+                proc = subprocess.run([decompprog], stdin=fp, stdout=subprocess.PIPE)
+                wfile.write(proc.stdout)
